@@ -247,7 +247,11 @@ def drive(run, tier, rng, focus):
                                 # the flags are accepted for every kind of target; for .npy / raw they change nothing
                                 kw = dict(overwrite=ow, compress=comp)
                             try:
-                                objs[i].save(target(d, fn), **kw)
+                                if kind == "npz" and rng.random() < 0.4:
+                                    # (the documented positional order: wfilename, key, compress, overwrite)
+                                    objs[i].save(target(d, fn), key or None, comp, ow)
+                                else:
+                                    objs[i].save(target(d, fn), **kw)
                             finally:
                                 ev["file"] = inspect_file(target(d, fn), kind)
                         else:
